@@ -26,6 +26,9 @@ Order == IF "ORDER" \in DOMAIN IOEnv THEN IOEnv.ORDER ELSE "0"
 Keys == 0..4
 \* CANCONT = "1": the Policies have canContinueInvoking(args) = "the argument value is not 2" (C12)
 CanCont == IF "CANCONT" \in DOMAIN IOEnv THEN IOEnv.CANCONT = "1" ELSE FALSE
+\* a second mixin with its own before-dispatch hook ("mv" records; stops the dispatch when the argument value is 1):
+\* "0" none, "1" listed after MixinFilter (runs when all filters passed), "2" listed before it (runs first)
+Veto == IF "VETO" \in DOMAIN IOEnv THEN IOEnv.VETO ELSE "0"
 
 VARIABLES lst, flt, nn, nf, pending, frames, done, pins, l,
           armed,     \* a fault (allocation failure / throwing copy) is armed for the operation that follows (C09)
@@ -74,11 +77,13 @@ RunsFor(n, v) == kind[n].k # "cf" \/ v % 2 = 0
 LiveR(e, s, v) == SelectSeq(LiveL(e, s), LAMBDA x : RunsFor(x, v))
 LiveF(s) == SelectSeq(s, LAMBDA x : InSeq(flt, x))
 \* (the filters belong to dispatcher 1, keys 1 and 2; dispatcher 2 of the remover histories has none)
-NewD(e, uid, v, explicit, alias) == [k |-> "D", e |-> e, uid |-> uid, v |-> v, v0 |-> v, ph |-> "f", ftodo |-> IF e \in {1, 2} THEN flt ELSE <<>>, todo |-> <<>>, cur |-> 0,
+NewD(e, uid, v, explicit, alias) == [k |-> "D", e |-> e, uid |-> uid, v |-> v, v0 |-> v, ph |-> IF Veto = "2" THEN "m" ELSE "f", ftodo |-> IF e \in {1, 2} THEN flt ELSE <<>>, todo |-> <<>>, cur |-> 0,
                                      explicit |-> explicit, alias |-> alias]
 NewP(mode, batch) == [k |-> "P", mode |-> mode, batch |-> batch, kept |-> <<>>, cnt |-> 0, inpred |-> 0, stopped |-> FALSE]
 \* a dispatch whose filters are through takes the snapshot of its listeners
-Norm(d) == IF d.ph = "f" /\ d.cur = 0 /\ LiveF(d.ftodo) = <<>> THEN [d EXCEPT !.ph = "l", !.todo = lst[d.e]] ELSE d
+Norm(d) == IF d.ph = "f" /\ d.cur = 0 /\ LiveF(d.ftodo) = <<>>
+           THEN (IF Veto = "1" THEN [d EXCEPT !.ph = "m"] ELSE [d EXCEPT !.ph = "l", !.todo = lst[d.e]])
+           ELSE d
 Finished(d) == d.cur = 0 /\ (d.ph = "x" \/ (d.ph = "l" /\ LiveR(d.e, d.todo, d.v) = <<>>))
 
 \* the library's own steps between two observable events
@@ -194,6 +199,16 @@ EvFilterEnd == /\ Is("fe") /\ frames # <<>> /\ Top(frames).k = "D" /\ Top(frames
                /\ frames' = [frames EXCEPT ![Len(frames)] = IF Ev.r = 1 THEN [@ EXCEPT !.cur = 0, !.v = @ + Ev.b]
                                                             ELSE [@ EXCEPT !.cur = 0, !.v = @ + Ev.b, !.ph = "x"]]
                /\ UNCHANGED <<lst, flt, nn, nf, pending, done, pins>>
+\* the second mixin's hook runs: it sees the dispatch's current arguments; a veto ends the dispatch (no further hook, filter or listener)
+EvMixinHook == /\ Is("mv") /\ LET S == Settle(frames, done) IN
+                  /\ S.fr # <<>> /\ Top(S.fr).k = "D" /\ Top(S.fr).ph = "m" /\ Top(S.fr).cur = 0
+                  /\ LET d == Top(S.fr) IN
+                     /\ Ev.u = d.uid /\ Ev.b = d.v /\ Ev.r = (IF d.v = 1 THEN 1 ELSE 0)
+                     /\ frames' = [S.fr EXCEPT ![Len(S.fr)] = IF d.v = 1 THEN [d EXCEPT !.ph = "x"]
+                                                                ELSE IF Veto = "2" THEN [d EXCEPT !.ph = "f"]
+                                                                ELSE [d EXCEPT !.ph = "l", !.todo = lst[d.e]]]
+                  /\ done' = S.dn
+               /\ UNCHANGED <<lst, flt, nn, nf, pending, pins>>
 \* a listener is entered: next live listener of the snapshot, with the dispatch's arguments
 Strip(ls, S) == [k \in Keys |-> SelectSeq(ls[k], LAMBDA y : y \notin S)]
 AttachedN(n) == \E k \in Keys : InSeq(lst[k], n)
@@ -412,7 +427,7 @@ Next == \/ ((EvAppendL \/ EvPrependL \/ EvInsertL \/ EvAppendCtr \/ EvAppendCond
         \/ EvThrowUser \/ EvDispatchExit \/ EvProcessExit \/ EvArm \/ EvFaulted \/ EvTakeFaulted
         \/ ((EvEnumBegin \/ EvEnumVisit \/ EvEnumRet \/ EvEnumEnd) /\ UR)
         \/ ((EvRemoveL \/ EvHasAnyL \/ EvOwnsL \/ EvForEachL \/ EvVisitL \/ EvAppendF \/ EvRemoveF
-             \/ EvDispatchBegin \/ EvDispatchEnd \/ EvFilterBegin \/ EvFilterEnd \/ EvRet
+             \/ EvDispatchBegin \/ EvDispatchEnd \/ EvMixinHook \/ EvFilterBegin \/ EvFilterEnd \/ EvRet
              \/ EvEnqueue \/ EvProcessBegin \/ EvPredBegin \/ EvPredEnd \/ EvProcessEnd \/ EvPeek \/ EvTake \/ EvTakeDispatch \/ EvClear \/ EvEmptyQ \/ EvEndNoDrain) /\ UR)
         \/ ((EvEnter \/ EvCondBegin \/ EvCondEnd
              \/ EvSAdd \/ EvSRemove \/ EvSReset \/ EvSTarget \/ EvSMoveConstruct \/ EvSMoveAssign \/ EvSSwap \/ EvSDestroy \/ EvSCreate) /\ UA)
